@@ -399,13 +399,16 @@ def fixture_plan(tier):
                 ((3, 2, 1, "runs"), 0, 64),      # 4 columns, UNCOMPRESSED (serial prefetch, parallel main loop)
                 ((5, 1, 1, "alt"), 1, 64),       # 8 mixed types REQUIRED/OPTIONAL, SNAPPY
                 ((2, 5, 1, "alt"), 6, 64)]       # BYTE_ARRAY?, DOUBLE, BOOLEAN  ZSTD
-    out = []
-    for sid in (1, 2, 3, 4, 5, 6, 7):
-        for pid, groups, nulls in ((1, 1, "alt"), (2, 2, "runs"), (3, 1, "none"), (6, 1, "alt"), (4, 1, "alt")):
-            for codec in (0, 1, 2, 5, 6):
-                if (sid + pid + codec) % 2 == 0 or (sid == 4 and pid == 3):
-                    out.append(((sid, pid, groups, nulls), codec, 64 if pid != 4 else 1 << 20))
-    return out
+    P = 64
+    return [((4, 3, 1, "none"), 1, P), ((4, 3, 1, "none"), 6, P), ((4, 3, 1, "none"), 0, P), ((4, 3, 1, "none"), 2, P),
+            ((4, 3, 1, "none"), 5, P),
+            ((5, 1, 1, "alt"), 1, P), ((5, 1, 1, "alt"), 6, P), ((5, 6, 1, "alt"), 0, P),
+            ((1, 1, 2, "alt"), 6, P), ((1, 1, 2, "alt"), 1, P), ((1, 2, 2, "runs"), 0, P),
+            ((2, 5, 1, "alt"), 6, P), ((2, 2, 2, "runs"), 2, P),
+            ((3, 2, 1, "runs"), 0, P), ((3, 2, 1, "runs"), 5, P), ((3, 6, 1, "alt"), 1, P),
+            ((6, 1, 1, "alt"), 1, P), ((6, 3, 1, "none"), 6, P),
+            ((7, 2, 2, "runs"), 1, P), ((7, 2, 2, "runs"), 0, P),
+            ((5, 4, 1, "alt"), 6, 1 << 20)]     # one page per chunk (default-sized pages)
 
 
 def batch_sizes(fx, tier):
@@ -497,7 +500,7 @@ def explore(chk, tier, fixtures, rng):
     # ---- 2. runs: thread sweep (unforced) and forced schedules
     runs = {}          # cid -> dict(ref=rid, threads, forced, sched(model, call), bad, lockv, ...)
     lines = []
-    reps = 2 if quick else 6
+    reps = 2 if quick else 4
     for rid, rf in refs.items():
         if "calls" not in rf:
             continue
@@ -511,7 +514,7 @@ def explore(chk, tier, fixtures, rng):
 
     # forced schedules: TLC jobs per (reference run, target call, team size)
     jobs = []
-    budget_per_job = 60 if quick else 600
+    budget_per_job = 60 if quick else 360
     for rid, rf in refs.items():
         if rf["mode"] != "f" or "calls" not in rf or rf["verify"]:
             continue
@@ -539,9 +542,16 @@ def explore(chk, tier, fixtures, rng):
                 if first and ntask >= 8 and rf["bs"] > 7 and rf["proj"] is None:
                     jobs.append((rid, ci, 2))
         else:
-            for ci in targets[:4]:
-                for team in [min(ntask, 8)] + ([2] if ntask > 2 else []) + ([3] if ntask > 4 else []):
-                    jobs.append((rid, ci, team))
+            if rf["bs"] not in (7, 40):
+                continue
+            if rf["proj"] is not None and (rf["bs"] != 40 or ntask < 8):
+                continue
+            for n_t, ci in enumerate(targets[:2]):
+                jobs.append((rid, ci, min(ntask, 8)))
+                if n_t == 0 and ntask > 2 and rf["proj"] is None:
+                    jobs.append((rid, ci, 2))
+                    if ntask >= 8 and rf["bs"] == 40:
+                        jobs.append((rid, ci, 3))
     compressed = lambda fx: fx.codec != 0
 
     def gen(job):
@@ -563,8 +573,8 @@ def explore(chk, tier, fixtures, rng):
             out += [(c, "all") for c in r.cases]
         else:
             ptasks = None
-            if quick and ntask > 4:
-                ptasks = sorted(random.Random(common.seed() * 31 + ci + team).sample(range(1, ntask + 1), 4))
+            if ntask > 4:       # pairs among a seeded sample of the tasks (all pairs when <= 4 tasks)
+                ptasks = sorted(random.Random(common.seed() * 31 + ci + team).sample(range(1, ntask + 1), 3 if quick else 5))
             r = tlc_schedules(chk, case, "pair", pair_phase="both", pair_tasks=ptasks)
             tl.append(r)
             out += [(c, "pair") for c in r.cases]
@@ -649,7 +659,7 @@ def explore(chk, tier, fixtures, rng):
     execs, meta = [], {}
     stats = {"sweep_runs": 0, "forced_replayed": 0, "forced_realised": 0, "forced_infeasible": 0,
              "lock_admitted": 0, "lock_admitted_realised": 0, "lock_forbidden": 0, "lock_forbidden_realised": 0,
-             "lock_forbidden_stopped_at_lockv": 0, "model_bad": 0, "retried": len(retry)}
+             "lock_forbidden_stopped_at_lockv": 0, "model_bad": 0, "model_bad_prefix_realised": 0, "retried": len(retry)}
     by_ref = {}
     for cid, rn in runs.items():
         by_ref.setdefault(rn["ref"], []).append(cid)
@@ -693,6 +703,8 @@ def explore(chk, tier, fixtures, rng):
                     stats["lock_forbidden_stopped_at_lockv"] += 1
                 if rn["bad"]:
                     stats["model_bad"] += 1
+                    if s and s["cursor"] >= rn["offset"] + rn["bad"]:
+                        stats["model_bad_prefix_realised"] += 1      # followed up to and including the foreign read
                 m["cfg"]["realised"] = real
                 chk.count(("forced", fx.key, fx.codec, rf["bs"], rn["threads"], rn["call"], tuple(rn["sched"])), rn["nontrivial"])
             else:
